@@ -131,7 +131,7 @@ Fixpoint syms_ok (afternl : bool) (l : list lsym) : bool :=
   match l with
   | [] => true
   | y :: l' => (if afternl then nl_ok (fst (y_atom y)) else sep_ok (fst (y_atom y))) && (1 <=? snd (y_atom y))
-               && negb ((y_sep y =? 0) || (y_sep y =? 13)) && name_ok (y_name y) && syms_ok true l'
+               && negb ((y_sep y =? 0) || (y_sep y =? 13) || is_digit (y_sep y)) && name_ok (y_name y) && syms_ok true l'
   end.
 (* a keyword followed by numbers and a terminating 0: the first token after the keyword starts with a line break *)
 Fixpoint atoms_ok (afternl : bool) (l : list num) : bool :=
